@@ -20,18 +20,21 @@ fn query_shapes(thorough: bool) -> Vec<(&'static str, Vec<usize>)> {
         ("Ix0", vec![]),
         ("Ix1", vec![3]),
         ("Ix1", vec![0]),
-        ("Ix2", vec![2, 2]),
+        ("Ix2", vec![2, 3]),
         ("Ix2", vec![1, 0]),
-        ("Ix3", vec![2, 1, 2]),
-        ("Ix4", vec![1, 2, 1, 2]),
+        ("Ix3", vec![3, 1, 2]),
+        ("Ix4", vec![1, 2, 1, 3]),
         ("IxDyn", vec![]),
         ("IxDyn", vec![3]),
-        ("IxDyn", vec![2, 2]),
-        ("IxDyn", vec![2, 1, 2]),
+        ("IxDyn", vec![3, 2]),
+        ("IxDyn", vec![2, 3, 2]),
     ];
     if thorough {
         v.push(("Ix1", vec![1]));
         v.push(("Ix2", vec![3, 1]));
+        v.push(("Ix2", vec![2, 2]));
+        v.push(("Ix3", vec![2, 3, 4]));
+        v.push(("Ix4", vec![2, 1, 3, 2]));
         v.push(("Ix3", vec![0, 2, 2]));
         v.push(("IxDyn", vec![0]));
         v.push(("IxDyn", vec![1, 2, 1, 2]));
@@ -190,6 +193,55 @@ pub fn entries(tr: &mut Trace, rng: &mut Rng, thorough: bool) {
                     b.q(tr, Entry::Into, "-", &scalar_q(bad), Lay::C);
                 }
             }
+        }
+    }
+    // the same for 2-D: an out-of-range x, y or both at the first / middle / last position of a batch
+    tr.reset("entries-oob-2d");
+    {
+        let x: Vec<f64> = vec![-1.0, 0.5, 2.0, 4.5];
+        let y: Vec<f64> = vec![10.0, 11.0, 13.5];
+        for (dtag, trailing) in [("Ix2", vec![]), ("Ix3", vec![2usize])] {
+            let mut shape = vec![4usize, 3];
+            shape.extend_from_slice(&trailing);
+            let data = gen::data::<f64>(rng, &shape, "uniform");
+            let dr = real(&data, Lay::C);
+            let xr = real1(&x, Lay::C);
+            let yr = real1(&y, Lay::C);
+            let cfg = Cfg2 { x: Some(&xr), y: Some(&yr), data: &dr, dtag, store: Store::Owned };
+            if let Some(b) = do_build2(tr, &cfg, &Strat2::Bilinear { ex: false }, &[]) {
+                let px = [-1.0f64, 4.5, 0.75, 2.0, 3.0];
+                let py = [10.0f64, 13.5, 10.5, 11.0, 12.0];
+                let badx = [4.5f64.next_up(), (-1.0f64).next_down(), f64::NAN, f64::INFINITY, -1e9];
+                let bady = [13.5f64.next_up(), 10.0f64.next_down(), f64::NAN, f64::NEG_INFINITY, 1e300];
+                for (tag, qshape) in query_shapes(false) {
+                    let n: usize = qshape.iter().product();
+                    if n == 0 {
+                        continue;
+                    }
+                    for pos in [0, n / 2, n - 1] {
+                        for which in 0..3 {
+                            let mut vx: Vec<f64> = (0..n).map(|i| px[(i * 3 + pos) % 5]).collect();
+                            let mut vy: Vec<f64> = (0..n).map(|i| py[(i * 2 + pos) % 5]).collect();
+                            if which != 1 {
+                                vx[pos] = *rng.pick(&badx);
+                            }
+                            if which != 0 {
+                                vy[pos] = *rng.pick(&bady);
+                            }
+                            let qx = arr_q(&qshape, vx, Lay::C);
+                            let qy = arr_q(&qshape, vy, Lay::C);
+                            b.q(tr, Entry::Array, tag, &qx, &qy, Lay::C);
+                            if which == 2 {
+                                b.q(tr, Entry::ArrayInto, tag, &qx, &qy, Lay::C);
+                            }
+                        }
+                    }
+                }
+                for k in 0..5 {
+                    b.q(tr, Entry::Interp, "-", &scalar_q(badx[k]), &scalar_q(py[k]), Lay::C);
+                    b.q(tr, Entry::Into, "-", &scalar_q(px[k]), &scalar_q(bady[k]), Lay::C);
+                }
+            };
         }
     }
 }
